@@ -17,6 +17,8 @@ import (
 	"math/rand"
 	"os"
 	"runtime/debug"
+	"strconv"
+	"time"
 )
 
 type Case map[string]interface{}
@@ -29,6 +31,9 @@ type Family struct {
 	Exec func(c Case) Event
 	// OnPanic fills the fields a trace spec reads before it looks at "panic" (optional).
 	OnPanic func(c Case) Event
+	// Isolated families execute every case in a sacrificial child process (address-space limit, timeout):
+	// a crash or hang of the library is an observed outcome, not the end of the recording.
+	Isolated bool
 }
 
 var families = map[string]*Family{}
@@ -150,15 +155,36 @@ func main() {
 	seed := fs.Int64("seed", 1, "")
 	n := fs.Int("n", 1000, "")
 	tier := fs.String("tier", "quick", "")
+	noEarly := fs.Bool("noearly", false, "never stop early (confirmation runs)")
 	fs.Parse(os.Args[3:])
 	w := bufio.NewWriterSize(os.Stdout, 1<<20)
 	defer w.Flush()
+	exec := func(c Case) Event { return execSafe(f, c) }
+	stopEarly := func() bool { return false }
+	if f.Isolated && mode != "worker" {
+		iso := &isolator{fam: fam}
+		defer iso.stop()
+		exec = func(c Case) Event { return iso.exec(f, c) }
+		// a defect that makes inputs slow (huge allocations, long loops) must not make the check run for hours:
+		// after the budget (or too many killed workers) the recording stops; what was recorded is still judged
+		budget := 240 * time.Second
+		if v, err := strconv.Atoi(os.Getenv("VERIF_DRIVE_BUDGET_S")); err == nil && v > 0 {
+			budget = time.Duration(v) * time.Second
+		}
+		t0 := time.Now()
+		stopEarly = func() bool { return !*noEarly && (iso.deaths >= maxDeaths || time.Since(t0) > budget) }
+	}
 	switch mode {
+	case "worker":
+		workerMain(f)
 	case "record":
 		r := rand.New(rand.NewSource(*seed))
 		f.Gen(r, *n, *tier, func(c Case) {
+			if stopEarly() {
+				return
+			}
 			c = normalize(c)
-			w.Write(finish(execSafe(f, c), c))
+			w.Write(finish(exec(c), c))
 			w.WriteByte('\n')
 		})
 	case "one":
@@ -168,12 +194,15 @@ func main() {
 			if len(sc.Bytes()) == 0 {
 				continue
 			}
+			if stopEarly() {
+				break
+			}
 			c, err := decodeCase(sc.Bytes())
 			if err != nil {
 				fmt.Fprintln(os.Stderr, "bad case:", err)
 				os.Exit(2)
 			}
-			w.Write(finish(execSafe(f, c), c))
+			w.Write(finish(exec(c), c))
 			w.WriteByte('\n')
 		}
 	default:
